@@ -379,9 +379,22 @@ def kani_cmd(h, extra=()):
     return cmd
 
 
+DEADLINE = [None]  # quick tier: absolute time after which no harness may still be running
+
+
 def run_harness(scratch, h, logdir, cwd=None):
     cwd = cwd or f"{scratch}/repo"
-    rc, out, wall, to = run_cmd(kani_cmd(h), cwd, h.get("timeout_s", 600), h.get("mem_gb", 8),
+    tmo = h.get("timeout_s", 600)
+    if DEADLINE[0] is not None:
+        left = DEADLINE[0] - time.time()
+        if left < 20:
+            r = {"harness": h["name"], "kind": h["kind"], "bound": h.get("bound"), "wall_s": 0.0, "solver_s": None, "checks": 0, "success": 0,
+                 "unreachable": 0, "undetermined": 0, "covers": 0, "covers_satisfied": 0, "stubs": [], "failed_checks": [], "rss_mb": None,
+                 "verdict": "undecided", "reason": "not started: the quick tier's wall-clock budget was used up"}
+            return r, ""
+        tmo = min(tmo, left)
+        h = dict(h, timeout_s=round(tmo))
+    rc, out, wall, to = run_cmd(kani_cmd(h), cwd, tmo, h.get("mem_gb", 8),
                                 live_log=f"{logdir}/{h['name'].split('::')[-1]}.log")
     return classify(h, rc, out, wall, to), out
 
@@ -575,6 +588,10 @@ def main():
         return 0
 
     t0 = time.time()
+    if tier == "quick":
+        # a quick check is expected to finish within 900 s; stop cleanly (exit 2, evidence written)
+        # rather than be killed from outside
+        DEADLINE[0] = t0 + float(os.environ.get("VERIF_QUICK_BUDGET_S", "840"))
     scratch = os.environ.get("VERIF_SCRATCH", f"/var/tmp/mainline-verif.{pid}.{os.getpid()}")
     logdir = f"{scratch}/logs"
     results, vresults = [], []
